@@ -9,7 +9,7 @@ import gen_core as G
 import minerals_trace as MT
 from props import c01, c03
 
-FILES = ["gen/Gen_core.v", "Model_core.v", "Model_minerals.v", "Proofs_core.v", "Proofs_total.v", "Proofs_minerals.v", "Proofs_flow.v",
+FILES = ["gen/Gen_core.v", "Model_core.v", "Model_minerals.v", "Proofs_core.v", "Proofs_total.v", "Proofs_minerals.v", "Proofs_flow.v", "Proofs_path.v",
          "Proofs_rhs.v", "Inst_core.v", "Entry_core.v", "Extract_core.v"]
 PROP = "Properties/C07.v"
 
